@@ -6,6 +6,7 @@ import (
 	"encoding/json"
 	"strings"
 
+	"github.com/resgateio/resgate/server/rescache"
 	"github.com/resgateio/resgate/zzvf"
 )
 
@@ -13,6 +14,7 @@ func init() {
 	zzvf.Register("VF_C04_L1_ReadGating", VF_C04_L1_ReadGating)
 	zzvf.Register("VF_C05_L1_CallGating", VF_C05_L1_CallGating)
 	zzvf.Register("VF_C06_L2_LoadingTrigger", VF_C06_L2_LoadingTrigger)
+	zzvf.Register("VF_C09_L2_GatingLeak", VF_C09_L2_GatingLeak)
 }
 
 var vfGateKinds = []vfReqKind{
@@ -87,6 +89,7 @@ func vfGating(checkGet, checkCall bool, checkRevoke ...bool) {
 		g.hadToken = true
 	}
 	next := 0
+	discs := zzvf.ParamOr("disconnects", 0)
 	zzvf.Reach("gating-start")
 	for step := 0; step < 24; step++ {
 		pend := w.mq.pending()
@@ -103,11 +106,22 @@ func vfGating(checkGet, checkCall bool, checkRevoke ...bool) {
 			trigAct = nact
 			nact++
 		}
+		discAct := -1
+		if discs > 0 && !r.disc {
+			discAct = nact
+			nact++
+		}
 		if nact == 0 || (nact == 1 && trigAct == 0) {
 			break
 		}
 		a := zzvf.Choose("action", nact)
 		switch {
+		case a == discAct:
+			discs--
+			zzvf.Note("disconnect")
+			r.disc = true
+			next = len(kinds)
+			w.disconnect(cl)
 		case a == issueAct:
 			k := kinds[next]
 			next++
@@ -192,6 +206,34 @@ func vfGating(checkGet, checkCall bool, checkRevoke ...bool) {
 		}
 	}
 	zzvf.Reach("gating-end")
+	if len(checkRevoke) > 1 && checkRevoke[1] {
+		// everybody leaves; late answers; the eviction delay passes
+		if !r.disc {
+			w.disconnect(cl)
+		}
+		w.settle()
+		for i := 0; i < 8 && len(w.mq.pending()) > 0; i++ {
+			for _, q := range w.mq.pending() {
+				outs := vfOutcomes(q.subject, false)
+				w.mq.answer(q, outs[0].payload, outs[0].err)
+			}
+			w.settle()
+		}
+		vfCheckCacheInvariant(w)
+		rescache.VFFlushEvictions(w.s.cache)
+		w.settle()
+		zzvf.Reach("gating-all-gone")
+		ents := rescache.VFEntries(w.s.cache)
+		if len(ents) > 0 {
+			zzvf.Note("entry left: " + ents[0].Name)
+		}
+		zzvf.Assert(len(ents) == 0, "no-cache-entry-left-without-users")
+		for _, s := range w.mq.subs {
+			if !s.unsub && strings.HasPrefix(s.ns, "event.") {
+				zzvf.Assert(false, "no-resource-event-subscription-left")
+			}
+		}
+	}
 	if len(checkRevoke) > 0 && checkRevoke[0] {
 		// C06: whatever the moment of the trigger relative to loading, a
 		// client that ends up directly subscribed holds a grant that was
@@ -305,4 +347,9 @@ func vfCheckDataFrames(r *vfRun, g *vfGateState, frames []vfFrame) {
 
 func VF_C04_L1_ReadGating() { vfGating(true, false) }
 func VF_C06_L2_LoadingTrigger() { vfGating(false, false, true) }
+
+// VF_C09_L2_GatingLeak: the gating scenarios (incl. the four-request one in
+// which a resource is un-sent while a parent loads) followed by a disconnect
+// and the eviction delay: no cache entry or event subscription is left.
+func VF_C09_L2_GatingLeak() { vfGating(false, false, false, true) }
 func VF_C05_L1_CallGating() { vfGating(false, true) }
